@@ -7,13 +7,29 @@ pick was used (module-level name `argmax` of msdm.algorithms.tdlearning wrapped 
 in /repo is modified).  Episode start states are taken from end_of_episode / the first step.
 For expected SARSA the behaviour distribution used for the target (local `na_dist`) is recorded too.
 Returned: the experience, the final Q-table WITH ITS KEY ORDER (snapshot taken before the policy is
-queried, and the key list again afterwards), and the policy at every state id of the MDP."""
-import os, sys
+queried, and the key list again afterwards), and the policy at every state id of the MDP.
+
+Input representations (the case says which): state / action LABELS of several types including falsy
+ones (0, "", (), False) mapped from the generator's ids, per-state action ORDER, MDP given as
+QuickTabularMDP / QuickMDP / a hand-written TabularMarkovDecisionProcess subclass (list-valued actions,
+Deterministic/Uniform/Dict distributions) / `initial_state=` form, numeric parameters as int or float,
+seed 0 / None (global `random`, seeded here).  Everything is mapped back to ids before it is returned.
+Object reuse: ONE learner object through all stages of a case, one MDP object per distinct stage spec
+(reused when a spec recurs, optionally with its cached matrix views touched first), a twin learner with
+msdm's default listener on the same MDP object (results must be identical), the policy queried twice."""
+import os, sys, json, random
 sys.path.insert(0, os.path.dirname(os.path.abspath(__file__)))
 from build import *
 
 _PICKS = []
-_CTX = {}
+_CTX = {"sid": None, "aid": None}
+
+S_POOLS = {"str": ["", "a", "b", "c", "d", "e", "f"],
+           "tuple": [(), (0,), (1,), (0, 1), ("x",), (2, 2), (0, 0, 0)],
+           "mixed": ["", (), 0, "z", (1,), 7, -1.5],
+           "boolmixed": [False, "", (), "q", (3,), 9, "0"]}
+A_POOLS = {"str": ["", "left", "r"], "tuple": [(), (0, 1), (1, 0)], "mixed": [0, "", ()],
+           "boolmixed": [False, "x", (1,)]}
 
 
 def _install():
@@ -38,12 +54,13 @@ def make_listener(td, kind):
             self.cur = None
 
         def end_of_timestep(self, lv):
+            sid, aid = _CTX["sid"], _CTX["aid"]
             if self.cur is None:
-                self.cur = {"start": lv["s"], "steps": []}
+                self.cur = {"start": sid[lv["s"]], "steps": []}
             s, a, ns = lv["s"], lv["a"], lv["ns"]
-            st = {"s": s, "a": a, "r": fj(lv["r"]), "ns": ns}
+            st = {"s": sid[s], "a": aid[a], "r": fj(lv["r"]), "ns": sid[ns]}
             if kind == "sarsa":
-                st["na"] = lv["na"]
+                st["na"] = aid[lv["na"]]
             if kind == "dq":
                 if len(_PICKS) != 1:
                     raise RuntimeError("expected exactly one argmax call per double-Q step, saw %d" % len(_PICKS))
@@ -55,17 +72,17 @@ def make_listener(td, kind):
                     st["coin"] = False
                 else:
                     raise RuntimeError("argmax was not taken over q1[ns] or q2[ns]")
-                st["pick"] = pick
+                st["pick"] = aid[pick]
                 st["after"] = [fj(lv["q1"][s][a]), fj(lv["q2"][s][a])]
             else:
                 st["after"] = [fj(lv["q"][s][a])]
             if kind == "esarsa":
-                st["dist"] = [[b, fj(p)] for b, p in lv["na_dist"].items()]
+                st["dist"] = [[aid[b], fj(p)] for b, p in lv["na_dist"].items()]
             self.cur["steps"].append(st)
 
         def end_of_episode(self, lv):
             if self.cur is None:                 # loop body never ran: s is still the sampled start state
-                self.cur = {"start": lv["s"], "steps": []}
+                self.cur = {"start": _CTX["sid"][lv["s"]], "steps": []}
             self.episodes.append(self.cur)
             self.cur = None
             del _PICKS[:]
@@ -75,11 +92,102 @@ def make_listener(td, kind):
     return Recorder
 
 
+def label_maps(case, n, nA):
+    lab = case.get("labels") or {}
+    ss, sa = lab.get("s", "int"), lab.get("a", "int")
+    slab = list(range(n)) if ss == "int" else [S_POOLS[ss][i] for i in lab["s_idx"]]
+    alab = list(range(nA)) if sa == "int" else [A_POOLS[sa][i] for i in lab["a_idx"]]
+    return slab, alab
+
+
+def build(case, spec, slab, alab):
+    """msdm MDP object for one stage, in the representation the case asks for"""
+    from msdm.core.mdp.quickmdp import QuickTabularMDP, QuickMDP
+    from msdm.core.mdp.tabularmdp import TabularMarkovDecisionProcess
+    from msdm.core.distributions import DictDistribution
+    from msdm.core.distributions.dictdistribution import UniformDistribution, DeterministicDistribution
+    form = case.get("form", "quick")
+    sid = {l: i for i, l in enumerate(slab)}
+    aid = {l: i for i, l in enumerate(alab)}
+    order = (case.get("labels") or {}).get("a_order")
+    rich = form == "class"
+
+    def mkdist(pairs):
+        pos = [(x, p) for x, p in pairs]
+        if rich and len(pos) == 1 and pos[0][1] == 1.0:
+            return DeterministicDistribution(pos[0][0])
+        if rich and len(pos) > 1 and all(p == pos[0][1] for _, p in pos) and abs(pos[0][1] * len(pos) - 1) < 1e-15:
+            return UniformDistribution([x for x, _ in pos])
+        return DictDistribution(dict(pos))
+    trans = {}
+    for k, row in spec["trans"].items():
+        s, a = map(int, k.split(","))
+        trans[(s, a)] = mkdist([(slab[ns], fl(p)) for ns, p in row])
+    rew = {}
+    for k, r in spec["reward"].items():
+        s, a, ns = map(int, k.split(","))
+        rew[(s, a, ns)] = fl(r)
+    acts = []
+    for s in range(spec["n"]):
+        ids = list(spec["actions"][s])
+        if order and sorted(order[s]) == sorted(ids):
+            ids = list(order[s])
+        labs = [alab[a] for a in ids]
+        acts.append(labs if rich else tuple(labs))
+    absorbing = list(spec["absorbing"])
+    init_pairs = [(slab[s], fl(p)) for s, p in spec["init"]]
+    init = mkdist(init_pairs)
+    gamma = fl(spec["gamma"])
+    if case.get("int_params") and gamma == int(gamma):
+        gamma = int(gamma)
+    nsd = lambda s, a: trans[(sid[s], aid[a])]
+    rwf = lambda s, a, ns: rew.get((sid[s], aid[a], sid[ns]), 0.0)
+    if form == "class":
+        class HandMDP(TabularMarkovDecisionProcess):
+            discount_rate = gamma
+            def next_state_dist(self, s, a): return nsd(s, a)
+            def reward(self, s, a, ns): return rwf(s, a, ns)
+            def actions(self, s): return acts[sid[s]]
+            def initial_state_dist(self): return init
+            def is_absorbing(self, s): return absorbing[sid[s]]
+        mdp = HandMDP()
+    else:
+        cls = QuickMDP if form == "quickmdp" else QuickTabularMDP
+        kw = dict(next_state_dist=nsd, reward=rwf, actions=lambda s: acts[sid[s]],
+                  is_absorbing=lambda s: absorbing[sid[s]], discount_rate=gamma)
+        pos = [x for x, p in init_pairs if p > 0]
+        if form == "quick_init_state" and len(init_pairs) == 1 and len(pos) == 1:
+            kw["initial_state"] = pos[0]          # deterministic variant; the label may be falsy
+        else:
+            kw["initial_state_dist"] = init
+        mdp = cls(**kw)
+    return mdp, sid, aid
+
+
+def num(case, x):
+    v = fl(x)
+    if case.get("int_params") and v == int(v):
+        return int(v)
+    return v
+
+
 def one(case, pl):
     td = _install()
     del _PICKS[:]
     kind = case["learner"]
     cls = {"ql": td.QLearning, "sarsa": td.SARSA, "esarsa": td.ExpectedSARSA, "dq": td.DoubleQLearning}[kind]
+    if case.get("expect_raise"):
+        # error path of the constructor: initial_q that is neither a number nor callable
+        try:
+            cls(initial_q=case["expect_raise"])
+            return {"raised": None}
+        except BaseException as e:
+            return {"raised": type(e).__name__}
+    stages = case.get("stages") or [case["mdp"]]
+    n, nA = stages[0]["n"], stages[0]["nA"]
+    slab, alab = label_maps(case, n, nA)
+    sid0 = {l: i for i, l in enumerate(slab)}
+    aid0 = {l: i for i, l in enumerate(alab)}
     iq = case["initial_q"]
     if iq["kind"] == "const":
         initial_q = fl(iq["value"])
@@ -87,28 +195,59 @@ def one(case, pl):
         initial_q = int(iq["value"])
     else:
         tbl = [[fl(x) for x in row] for row in iq["table"]]
-        initial_q = lambda s, a: tbl[s][a]
+        initial_q = lambda s, a: tbl[sid0[s]][aid0[a]]
+    params = dict(episodes=int(case["episodes"]), step_size=num(case, case["alpha"]), rand_choose=num(case, case["eps"]),
+                  softmax_temp=num(case, case["temp"]), initial_q=initial_q, seed=case["seed"])
     # ONE learner object for all stages: train_on(A), train_on(B), train_on(A) ... (same state/action labels);
     # nothing learnt or cached on one problem may leak into the next result
-    learner = cls(episodes=int(case["episodes"]), step_size=fl(case["alpha"]), rand_choose=fl(case["eps"]),
-                  softmax_temp=fl(case["temp"]), initial_q=initial_q, seed=int(case["seed"]),
-                  event_listener_class=make_listener(td, kind))
+    learner = cls(event_listener_class=make_listener(td, kind), **params)
     out = []
-    for spec in (case.get("stages") or [case["mdp"]]):
+    built = {}
+    for spec in stages:
         del _PICKS[:]
-        mdp = build_mdp(spec)
+        key = json.dumps(spec, sort_keys=True)
+        if key not in built:
+            built[key] = build(case, spec, slab, alab)
+            if case.get("pretouch"):
+                try:    # a base object whose cached views were already used
+                    built[key][0].state_list, built[key][0].action_list, built[key][0].transition_matrix
+                except BaseException:
+                    pass
+        mdp, sid, aid = built[key]
+        _CTX["sid"], _CTX["aid"] = sid, aid
+        if case["seed"] is None:
+            random.seed(case.get("global_seed", 0))
         res = learner.train_on(mdp)
         q = res.q_values
         keys = [k for k in dict.keys(q)]
-        table = [[s, [[a, fj(v)] for a, v in dict.items(dict.__getitem__(q, s))]] for s in keys]
-        policy = []
-        for s in range(spec["n"]):
-            d = res.policy.action_dist(s)
-            policy.append([[a, fj(p)] for a, p in d.items()])
-        keys_after = [k for k in dict.keys(res.q_values)]
-        out.append({"episodes": res.event_listener_results, "keys": keys, "table": table, "policy": policy,
-                    "keys_after_policy": keys_after,
-                    "actions": [list(mdp.actions(s)) for s in range(spec["n"])]})
+        table = [[sid[s], [[aid[a], fj(v)] for a, v in dict.items(dict.__getitem__(q, s))]] for s in keys]
+        first = [{aid[a]: p for a, p in res.policy.action_dist(slab[s]).items()} for s in range(spec["n"])]
+        policy = [[[a, fj(p)] for a, p in d.items()] for d in first]
+        again = [{aid[a]: p for a, p in res.policy.action_dist(slab[s]).items()} for s in range(spec["n"])]
+        requery_ok = again == first
+        keys_after = [sid[k] for k in dict.keys(res.q_values)]
+        # twin: a second learner object of the same class, msdm's default listener, same MDP object
+        del _PICKS[:]
+        if case["seed"] is None:
+            random.seed(case.get("global_seed", 0))
+        twin = cls(**params).train_on(mdp)
+        del _PICKS[:]
+        tq = twin.q_values
+        twin_table = {sid[s]: {aid[a]: v for a, v in dict.items(dict.__getitem__(tq, s))} for s in dict.keys(tq)}
+        mine = {sid[s]: {aid[a]: v for a, v in dict.items(dict.__getitem__(q, s))} for s in keys}
+        sums = []
+        for ep in res.event_listener_results:
+            t = 0
+            for st in ep["steps"]:
+                t += float(Fraction(*st["r"]))
+            sums.append(t)
+        twin_ok = (twin_table == mine) and (list(twin.event_listener_results.episode_rewards) == sums)
+        out.append({"episodes": res.event_listener_results, "keys": [sid[k] for k in keys], "table": table,
+                    "policy": policy, "keys_after_policy": keys_after, "policy_requery_ok": bool(requery_ok),
+                    "twin_ok": bool(twin_ok),
+                    "twin_detail": None if twin_ok else {"twin_table": {str(s): {str(a): fj(v) for a, v in r.items()} for s, r in twin_table.items()},
+                                                          "twin_episode_rewards": [fj(x) for x in twin.event_listener_results.episode_rewards]},
+                    "actions": [[aid[a] for a in mdp.actions(slab[s])] for s in range(spec["n"])]})
     return {"stages": out}
 
 
